@@ -71,7 +71,10 @@ ASSUMPTIONS = [
     "numpy's legacy generator is deterministic given its state (trusted)",
     "pulse_processing's helper convert_to_phase is stubbed (returns a constant phase frame of the detector's shape)",
     "fixtures are minimal valid inputs; other argument values of the models are not explored",
-    "dask observation is run under the synchronous scheduler (thread schedules are the subject of C07)",
+    "dask observation and calibration are run under dask's synchronous scheduler (thread schedules are the subject of C07); "
+    "observed while building: with the default threaded scheduler a calibration whose first fitness evaluation fails returns "
+    "the error to the caller while the other evaluations of the batch still run in pool threads inside set_random_seed "
+    "blocks, so the generator is transiently in a seeded state right after the failure (timing dependent, not checked here)",
 ]
 
 U32 = 2 ** 32 - 1
@@ -839,7 +842,12 @@ def do_run(mode, sub, pipeline_seed, td, islands=1, fault=None):
                 result_type="pixel", result_fit_range=(0, 3, 0, 4), target_fit_range=(0, 3, 0, 4),
                 pygmo_seed=11 + _vseed() % 50, pipeline_seed=pipeline_seed, num_islands=islands, num_evolutions=2,
                 num_best_decisions=2)
-            res = pyxel.run_mode(cal, det, pipe, with_inherited_coords=True)
+            import dask
+
+            # synchronous scheduler: the batch fitness evaluator and the islands' evolutions do not leave worker
+            # threads running after a failure (thread schedules are the subject of C07)
+            with dask.config.set(scheduler="synchronous"):
+                res = pyxel.run_mode(cal, det, pipe, with_inherited_coords=True)
             sig = tree_sig(res, only=("/champion", "/best"))
         else:
             raise KeyError(mode)
